@@ -56,4 +56,9 @@ TEXT = {
         "level": "Generated search over histories with up to 200 clients (structure), one to several complete fills of 2^20 clients followed by thousands of boundary steps (capacity), and hundreds to thousands of concurrent batches of 8/16 goroutines (-race + porcupine). Exploration; schedules are those the Go runtime produces with generated yields - not enumerated.",
         "note": "Ranking order is the implementation's plain (seconds, fraction) timestamp order, as the statement says. Data-race freedom is the race detector's verdict on the executed schedules only.",
     },
+    "C10": {
+        "technique": "property-based testing (rapid) with exhaustive per-packet mutation sweeps: every single-bit flip and field-level edit of encoder-produced NTS requests, responses and server cookies, judged by region (authenticated bytes / nonce / ciphertext must be rejected) and differentially against an independent extension-field walker + miscreant AES-SIV; code under test's crypto/rand draws replaced by a deterministic stream",
+        "level": "Generated search over keys, headers, cookie sizes, pool levels; per packet ~1000 (quick, every 7th bit) to ~8000 (thorough, all bits) mutants plus ~100 field edits. Exploration of the key/packet space, exhaustive over single-bit mutations of each generated packet in the thorough tier.",
+        "note": "Layer 1 (pure functions). miscreant is trusted as reference AEAD. Cookie fields shorter than 24 bytes (below the 28-byte minimum extension field) and response cookie lengths that are not a multiple of 4 are outside the generator (documented decoder/constructor limits, not this project's 124-byte cookies). Found and repaired P4 (1063f3c), P5 (8367138), P6 (2d1881a) and truncated-authenticator zero-extension (68dd72b).",
+    },
 }
